@@ -48,6 +48,14 @@ def chains(M):
         out.append((bname + ' over a sliced query [2:6] + count', lambda q=q: orm.select(s for s in q()[2:6]).count() if False else orm.count(s for s in q().limit(4, offset=2)), lambda objs, R=R: len(R(objs)[2:6])))
     ages = lambda objs: [s.age for s in objs if s.age is not None]
     out += [
+        # first() of an UNORDERED query is the first item of the fully ordered result (every selected column takes part in the implicit ordering)
+        ('first() unordered, pairs with ties on the first column', lambda: orm.select((s.a, 10 - s.b) for s in S if s.a == 2).first(), lambda objs: min((s.a, 10 - s.b) for s in objs if s.a == 2)),
+        ('first() unordered, triples with ties on two columns', lambda: orm.select((s.a, s.a + 1, 10 - s.b) for s in S if s.a >= 2).first(), lambda objs: min((s.a, s.a + 1, 10 - s.b) for s in objs if s.a >= 2)),
+        ('first() unordered, pairs (name last)', lambda: orm.select((s.b, s.name) for s in S if s.b == 3).first(), lambda objs: min((s.b, s.name) for s in objs if s.b == 3)),
+        ('first() unordered, scalar', lambda: orm.select(10 - s.b for s in S).first(), lambda objs: min(10 - s.b for s in objs)),
+        ('first() unordered, objects', lambda: orm.select(s for s in S if s.a == 2).first().name, lambda objs: min((s.id, s.name) for s in objs if s.a == 2)[1]),
+        ('first() unordered after filter()', lambda: orm.select((s.a, 10 - s.b) for s in S).filter(lambda a, b: a == 3).first(), lambda objs: min((s.a, 10 - s.b) for s in objs if s.a == 3)),
+        ('first() of an empty query', lambda: orm.select((s.a, s.b) for s in S if s.a > 100).first(), lambda objs: None),
         ('get() unique', lambda: S.select(lambda s: s.name == 'bob').get().name, lambda objs: 'bob'),
         ('get() none', lambda: S.select(lambda s: s.name == 'nobody').get(), lambda objs: None),
         ('get() of many raises', lambda: _raises(lambda: S.select(lambda s: s.a == 2).get(), core.MultipleObjectsFoundError), lambda objs: True),
